@@ -38,6 +38,8 @@ type Edge struct {
 	Attrs map[string]string `json:"attrs"`
 	SrcP  []string          `json:"srcp"`
 	DstP  []string          `json:"dstp"`
+	// Synthetic: an endpoint is not an object of the board (sequence-diagram lifeline pseudo-edges added by layout)
+	Synthetic bool `json:"synthetic,omitempty"`
 }
 
 type Board struct {
@@ -157,7 +159,16 @@ func Graph(g *d2graph.Graph, path []string) Board {
 		}
 		b.Objs = append(b.Objs, ob)
 	}
+	inBoard := map[*d2graph.Object]bool{}
+	for _, o := range g.Objects {
+		inBoard[o] = true
+	}
 	for _, e := range g.Edges {
+		if !inBoard[e.Src] || !inBoard[e.Dst] {
+			// lifeline pseudo-edge: its end object is not part of the board
+			b.Edges = append(b.Edges, Edge{Synthetic: true, Src: fold(e.Src.AbsID()), Dst: fold(e.Dst.AbsID()), Attrs: map[string]string{}, SrcP: []string{}, DstP: []string{}})
+			continue
+		}
 		ed := Edge{Src: fold(e.Src.AbsID()), Dst: fold(e.Dst.AbsID()), SA: bi(e.SrcArrow), DA: bi(e.DstArrow), Idx: e.Index, ID: e.AbsID(), Label: e.Label.Value, Attrs: attrMap(&e.Attributes)}
 		ed.SrcP = foldAll(KeyPath(e.Src.AbsID()))
 		ed.DstP = foldAll(KeyPath(e.Dst.AbsID()))
@@ -224,6 +235,9 @@ func Digest(bs []Board) string {
 			fmt.Fprintf(&sb, "o %s|%s|%s|%s|%s\n", o.ID, o.Parent, o.Label, o.Shape, sortedKV(o.Attrs))
 		}
 		for _, e := range b.Edges {
+			if e.Synthetic {
+				continue
+			}
 			fmt.Fprintf(&sb, "e %s|%s|%d%d|%d|%s|%s\n", e.Src, e.Dst, e.SA, e.DA, e.Idx, e.Label, sortedKV(e.Attrs))
 		}
 	}
